@@ -15,6 +15,7 @@ RULE = ('SCC streams in pop-on, roll-up and paint-on mode (and mixtures) whose r
         'otherwise a normal return in which every line has <= 32 characters. Non-trivial: at least one row '
         'of length >= 32, or >= 2 rows in one caption group.')
 ANCHORS = ['pycaption.scc:SCCReader.read']
+THOROUGH_SCALE = 4        # random budgets of the thorough tier are multiplied by this
 REQUIRE = {'streams_with_long_row': 50, 'streams_without_long_row': 50, 'long_rows_in_same_start_group': 20,
            'errors_checked': 50, 'returned_lines_checked': 200, 'mode_roll': 20, 'mode_paint': 20,
            'mode_pop': 20, 'two_long_rows_same_start': 5, 'streams_with_empty_row': 30,
